@@ -104,6 +104,18 @@ class Channel(ClientMessageSink):
     self.close_steps.append(self.run.step)
     self._state = ChannelState.Closed
     self._open_ar = None
+    if self.run.cfg.get('close_fails_inflight'):
+      # like the library's own pools and mux transport: closing fails whatever is still in flight, synchronously,
+      # and each of those completions comes back through the balancer's release path
+      for r in list(self.requests):
+        if r is not None and r.channel is self and not r.completions:
+          self.run.flags.add('close_failed_requests_in_flight')
+          try:
+            r.stack.AsyncProcessResponseMessage(MethodReturnMessage(error=Exception('connection closed')))
+          except Violation:
+            raise
+          except Exception as e:
+            self.run.raised('failing request %d from %r.Close()' % (r.id, self), e)
 
   def AsyncProcessRequest(self, sink_stack, msg, stream, headers):
     req = msg.properties.get('__vf_req')
@@ -546,6 +558,8 @@ class LBRun(object):
   def raised(self, what, e):
     """The balancer raised on a valid operation: whatever it was doing (returning load, picking a member,
     updating membership) did not happen."""
+    if isinstance(e, Violation):
+      raise e
     import traceback
     where = traceback.extract_tb(e.__traceback__)[-1]
     detail = 'balancer raised %r while %s (%s:%d)' % (e, what, where.filename.rsplit('/', 1)[-1], where.lineno)
